@@ -254,6 +254,22 @@ def ast_family(tier: str) -> List[Tuple[str, Callable[[], L.Formula]]]:
         out.append(("name-clash/or/" + tag, p2))
         # (nested re-binding of the SAME variable - p3 - is not used: ISLa's well-formedness forbids it and the real
         #  evaluate(), which judges witnesses, has no defined behaviour under shadowing)
+    # sibling quantifiers over the SAME variable name but DIFFERENT nonterminals with otherwise identical bodies: equality of
+    # formulas (used by the simplifying & and |, NNF and DNF) must take the nonterminal into account
+    def typed(name, t1, t2, q1, q2, conn, lit):
+        x1, x2 = L.BoundVariable(name, t1), L.BoundVariable(name, t2)
+        Q = {"A": L.ForallFormula, "E": L.ExistsFormula}
+        f1 = Q[q1](x1, start, smt(z3_eq(x1.to_smt(), z3.StringVal(lit)), x1))
+        f2 = Q[q2](x2, start, smt(z3_eq(x2.to_smt(), z3.StringVal(lit)), x2))
+        return conn(f1, f2)
+    for t1, t2 in (("<var>", "<rhs>"), ("<rhs>", "<var>"), ("<digit>", "<rhs>"), ("<var>", "<digit>"), ("<assgn>", "<stmt>")):
+        for q1, q2 in (("E", "E"), ("A", "A"), ("A", "E")):
+            for lit in ("a", "1"):
+                tag = "%s%s-%s%s-%s" % (q1, t1, q2, t2, lit)
+                out.append(("name-clash/types/or/" + tag, lambda a_=(t1, t2, q1, q2, lit): typed("e", a_[0], a_[1], a_[2], a_[3], L.DisjunctiveFormula, a_[4])))
+                out.append(("name-clash/types/and/" + tag, lambda a_=(t1, t2, q1, q2, lit): typed("e", a_[0], a_[1], a_[2], a_[3], L.ConjunctiveFormula, a_[4])))
+                out.append(("name-clash/types/op-or/" + tag, lambda a_=(t1, t2, q1, q2, lit): typed("e", a_[0], a_[1], a_[2], a_[3], (lambda f, g: f | g), a_[4])))
+                out.append(("name-clash/types/op-and/" + tag, lambda a_=(t1, t2, q1, q2, lit): typed("e", a_[0], a_[1], a_[2], a_[3], (lambda f, g: f & g), a_[4])))
     rot_n = 2 if tier == "quick" else 8
     for name, mk in shapes:
         for rot in range(rot_n):
@@ -353,7 +369,20 @@ def find_witness(f1: L.Formula, f2: L.Formula, negated: bool, limit_s: float = 6
                 return dict(tree=str(t), v1=v1, v2=v2)
         elif v1 != v2:
             return dict(tree=str(t), v1=v1, v2=v2)
+        # second judge: the reference semantics (checks/refsem.py, independent of ISLa's evaluator) - a change that damages
+        # a rewrite can damage evaluate() in the same way (e.g. equality of variables), so that the two verdicts still match
+        r1, r2 = ref_verdict(f1, t, gname), ref_verdict(f2, t, gname)
+        if r1 is not None and r2 is not None and ((r1 == r2) if negated else (r1 != r2)):
+            return dict(tree=str(t), v1=str(r1).upper(), v2=str(r2).upper(), judge="reference semantics (checks/refsem.py)")
     return None
+
+
+def ref_verdict(formula: L.Formula, tree, gname: str = "lang") -> Optional[bool]:
+    import refsem
+    try:
+        return bool(refsem.ref_eval(formula, tree, GRAMMARS[gname]))
+    except Exception:   # RefUndefined, unsupported construct
+        return None
 
 
 # --------------------------------------------------------------------------
@@ -824,6 +853,13 @@ def c08_pairs(tier: str) -> List[Dict[str, str]]:
     add("names/mexpr-var-default-name/named-forall", 'forall <assgn> a="{<var> var} := <rhs>": var = <var>', core_fa)
     add("names/quantifier-var-default-name", 'exists <assgn> var: var.<rhs>.<digit> = <digit>',
         'forall <digit> e in start: exists <assgn> a="<var> := {<digit> d}" in start: (= d e)')
+    # scoping: sibling quantifiers may reuse a variable name, also for a different nonterminal
+    add("scoping/same-name-different-type/or", '(exists <digit> e in start: (= e "a")) or (exists <var> e in start: (= e "a"))',
+        '(exists <digit> d in start: (= d "a")) or (exists <var> v in start: (= v "a"))')
+    add("scoping/same-name-different-type/and", '(forall <digit> e in start: (= e "1")) and (forall <var> e in start: (= e "a"))',
+        '(forall <digit> d in start: (= d "1")) and (forall <var> v in start: (= v "a"))')
+    add("scoping/same-name-same-type", '(exists <var> e in start: (= e "a")) and (exists <var> e in start: (= e "b"))',
+        '(exists <var> v in start: (= v "a")) and (exists <var> w in start: (= w "b"))')
     add("xpath/exists-child-alternatives-descendant", 'exists <stmt> s: s.<assgn>..<var> = "a"',
         '(exists <stmt> s="{<assgn> x}" in start: forall <var> v in x: (= v "a")) or '
         '(exists <stmt> t="{<assgn> y} ; <stmt>" in start: forall <var> w in y: (= w "a"))')
